@@ -40,6 +40,16 @@ CHECKS["C18"] = dict(
          "assertion is skipped and counted (labels smoothing-*).",
     ref="7/C18")
 
+CHECKS["C17"] = dict(
+    technique="property-based testing (Hypothesis): float64 KL reference from the definition, differential across storage formats, permutation and linearity metamorphic relations",
+    text="Generated non-negative matrices in seven sparse storages (and ndarray for the transformer) with empty rows/columns, explicit "
+         "zeros, unsorted indices and duplicate COO entries; information_weight is compared with an independent float64 KL computation, "
+         "across storages and under row/column permutations; the transformer is checked to be a fixed non-negative column scaling "
+         "(X @ diag(w)), linear and support-preserving, with weights derived from the KL reference. Exploration.",
+    note="Approximate-prior and supervised variants are held only to the structural claims. F27 (all-zero KL -> NaN weights) is a "
+         "recorded known finding, matched by the reference-computed predicate all_kl_zero.",
+    ref="7/C17")
+
 PENDING_REASON = "check not built yet in this revision of /verif (planned, see DESIGN.md section 7)"
 
 
